@@ -14,5 +14,6 @@ for cfg in ("default", "explanations", "checks", "checks_explanations"):
     for k, v in tab.items():
         out.setdefault(cfg, {})[k] = v
     out["loops:" + cfg] = C.loop_must_call_table(crate)
+    out["co:" + cfg] = C.co_exec_table(crate)
 json.dump(out, open("/verif/mustcall.json", "w"), indent=0, sort_keys=True)
 print({k: len(v) for k, v in out.items()})
